@@ -1,10 +1,44 @@
-(* C04: theorems are being added; this file holds ONLY statements closed by exact, each followed by Print Assumptions. *)
+(* C04: replies affect only the client instance they were asked about.  ONLY statements closed by `exact`, each followed by Print Assumptions. *)
 From Coq Require Import List NArith ZArith Bool Strings.Byte Strings.String.
 Import ListNotations.
-Require Import Params Iauth IauthFacts.
+Require Import Params Iauth Mon01 Stray TagRT.
 Local Open Scope list_scope.
 
-Theorem stray_reply_is_a_noop_on_the_request : forall c tb r svcn text,
-  find_slot (slots tb) 0 svcn (refm r) = None -> reply c tb r svcn text = (Some r, [], []).
-Proof. exact stray_reply_noop. Qed.
-Print Assumptions stray_reply_is_a_noop_on_the_request.
+(* reply_target s svc tag = the live instance whose (id, serial) the tag denotes and which still awaits svc.
+   A reply or unlinked notice with no target - stale serial, other id, malformed tag, unknown or not-awaited service -
+   leaves the STATE unchanged and produces no output, in every state whatsoever *)
+Theorem stray_reply_changes_nothing : forall c s id argv,
+  cmdchar argv = x58 \/ cmdchar argv = x78 ->
+  match arg 1 argv, arg 2 argv, arg 3 argv with
+  | Some svcn, Some tag, Some _ => reply_target s svcn tag = None
+  | _, _, _ => True
+  end ->
+  step c s id argv = (s, []).
+Proof. exact stray_reply_gen. Qed.
+Print Assumptions stray_reply_changes_nothing.
+
+(* hence it can be erased from any history without any difference in later behaviour *)
+Theorem stray_reply_is_erasable : forall c s e evs, stray s e -> run_out c s (e :: evs) = [] :: run_out c s evs.
+Proof. exact stray_reply_erasable. Qed.
+Print Assumptions stray_reply_is_erasable.
+
+(* serials: live instances have pairwise distinct serials, all assigned so far; a newcomer gets a fresh one,
+   so a tag naming a departed instance never matches a newcomer reusing its id (fewer than 2^32 announcements) *)
+Theorem serials_are_fresh : forall c s0 evs,
+  reqs s0 = [] -> next s0 = 0%N -> (N.of_nat (n_announces evs) < 4294967296)%N ->
+  SerInv (fold_left (fun s e => fst (step_ev c s e)) evs s0) /\
+  next (fold_left (fun s e => fst (step_ev c s e)) evs s0) = N.of_nat (n_announces evs).
+Proof. exact serial_fresh. Qed.
+Print Assumptions serials_are_fresh.
+
+Theorem newcomer_gets_next_serial : forall c s id argv r',
+  announces argv = true -> (next s < 4294967295)%N ->
+  lookup id (reqs (fst (step c s id argv))) = Some r' -> ser r' = (next s + 1)%N.
+Proof. exact newcomer_serial. Qed.
+Print Assumptions newcomer_gets_next_serial.
+
+(* the routing tag the daemon prints parses back to exactly (id, serial) *)
+Theorem tag_denotes_its_instance : forall id sr,
+  (-2147483648 <= id < 2147483648)%Z -> (sr < 4294967296)%N -> parse_tag (hexZ32 id ++ [x5f] ++ hex sr) = Some (id, sr).
+Proof. exact tag_roundtrip. Qed.
+Print Assumptions tag_denotes_its_instance.
